@@ -344,6 +344,10 @@ def check_cluster_property(run, props_file, cone, oracles, kills=False, quick=(1
         pinned = run.cov.get('pinned_statements', [])
         from . import refine as refine_mod
         broken += flow.proof_step(run, *refine_mod.props_and_cone())
+        pinned += run.cov.get('pinned_statements', [])
+        # node-level models meet the guards of the abstract system
+        broken += flow.proof_step(run, 'theories/props/Properties_bridge.v',
+                                  ['theories/Election.v', 'theories/PLog.v', 'theories/BufLog.v', 'theories/AbstractRaft.v', 'theories/proofs/C02.v', 'theories/proofs/C19.v', 'theories/proofs/AR_bridge.v'])
         run.cov['pinned_statements'] = pinned + run.cov.get('pinned_statements', [])
     violations = []
     try:
